@@ -61,9 +61,9 @@ Print Assumptions C03_no_usable_secret_never_authenticated.
    legacy SecretKey, version, timestamps = meta): two server states whose client records differ only in those other
    fields get the same response and the same ControlConnection from HandleHandshake, and stay so related. *)
 Theorem C03_gate_ignores_non_gate_fields :
-  forall hmac chk keep s s' c a m, same_gate s s' ->
-  let '(s1, c1, r) := auth hmac MaxFailures PermanentBanAt chk keep s c a m in
-  let '(s1', c1', r') := auth hmac MaxFailures PermanentBanAt chk keep s' c a m in
+  forall hmac chk v s s' c a m, same_gate s s' ->
+  let '(s1, c1, r) := auth hmac MaxFailures PermanentBanAt chk v s c a m in
+  let '(s1', c1', r') := auth hmac MaxFailures PermanentBanAt chk v s' c a m in
   c1 = c1' /\ r = r' /\ same_gate s1 s1'.
 Proof. intros hmac. exact (auth_ignores_meta hmac MaxFailures PermanentBanAt). Qed.
 Print Assumptions C03_gate_ignores_non_gate_fields.
@@ -81,7 +81,7 @@ Print Assumptions C03_rewriting_non_gate_fields_is_invisible.
 Theorem C03_async_unban_is_inert :
   forall hmac v s a,
   fst (step hmac MaxFailures PermanentBanAt v s (EUnbanLands a)) = s /\
-  fst (step hmac MaxFailures PermanentBanAt v s (EBanLapse a)) = s.
+  fst (step hmac MaxFailures PermanentBanAt current_variant s (EBanLapse a)) = s.
 Proof. intros hmac. exact (async_unban_is_inert hmac MaxFailures PermanentBanAt). Qed.
 Print Assumptions C03_async_unban_is_inert.
 
@@ -130,13 +130,35 @@ Print Assumptions C03_restart_invisible_for_lists.
 
 (* once a ban is in place it stays in place — through every handshake outcome of every connection (including the success
    of a handshake of the same address: RecordSuccess clears failures, never a ban), failures, lapses of short bans and the
-   asynchronous removal — until UnbanIP on that address or a restart; with C03_gated: every handshake from it is refused *)
+   asynchronous removal — until UnbanIP on that address, the end of its own temporary period, or a restart (lifts_ban); with C03_gated: every handshake from it is refused *)
 Theorem C03_ban_in_force_persists :
   forall hmac v es s a,
   banned s a = true -> forallb (fun e => negb (lifts_ban a e)) es = true ->
   banned (run hmac MaxFailures PermanentBanAt v s es) a = true.
 Proof. intros hmac. exact (ban_in_force_persists hmac MaxFailures PermanentBanAt). Qed.
 Print Assumptions C03_ban_in_force_persists.
+
+(* ban strength only increases: a PERMANENT ban in force (by PermanentBanAt failures or by an operator BanIP(ip, 0)) is absorbing
+   under every event except UnbanIP on that address and a restart — under every later failure of a handshake that was already
+   past the gate (a temporary-ban request), under RecordSuccess of an overlapped handshake, under the end of any temporary
+   period (ETempLapse), under short bans and the asynchronous removal.  With C03_gated: refused for ever. *)
+Theorem C03_perm_ban_absorbing :
+  forall hmac v es, v_ban_monotone v = true -> forall s a,
+  perm_banned s a -> forallb (fun e => negb (lifts_perm a e)) es = true ->
+  perm_banned (run hmac MaxFailures PermanentBanAt v s es) a.
+Proof. intros hmac. exact (perm_ban_absorbing hmac MaxFailures PermanentBanAt). Qed.
+Print Assumptions C03_perm_ban_absorbing.
+
+(* the tree as found (banIP overwrote the record): after a permanent ban, the failure of an overlapped handshake requests a
+   temporary ban, and when that period is over the address is free; the repaired code keeps it permanently banned *)
+Theorem C03_pinned_perm_overwritten_refuted :
+  exists es a,
+    perm_banned (run toy_hmac 1 20 pinned_variant init (List.firstn 2 es)) a /\
+    forallb (fun e => negb (lifts_perm a e)) (List.skipn 2 es) = true /\
+    banned (run toy_hmac 1 20 pinned_variant init es) a = false /\
+    perm_banned (run toy_hmac 1 20 current_variant init es) a.
+Proof. exact pinned_perm_overwritten_refuted. Qed.
+Print Assumptions C03_pinned_perm_overwritten_refuted.
 
 (* (5) the registry maps client x to connection k only if k is authenticated as x — after every history *)
 Theorem C03_registry_respects_auth :
